@@ -529,6 +529,21 @@ func ruleOPT3(c *Ctx) {
 		}
 	}
 
+	// Join only ever records options: an explicit false is stored as "present, false" (Set(F|0)); clearing
+	// presence instead would let an earlier true survive a later false that arrives nested in a *Struct
+	nClear := 0
+	p.InspectScope(join, func(g *FuncInfo, nd ast.Node) bool {
+		if call, ok := nd.(*ast.CallExpr); ok {
+			if m, _, v, ok := FlagCall(g.Info(), call); ok && m == "Clear" {
+				nClear++
+				c.Violation(fmt.Sprintf("join:never-clears-presence#%d", nClear), call.Pos(), "Struct.Join clears the presence of "+ft.Names(v)+": an option set to false must stay present (Set(flag|0)) so that it overrides earlier values when joined again")
+			}
+		}
+		return true
+	})
+	if nClear == 0 {
+		c.OK("join:never-clears-presence", join.Pos(), "")
+	}
 	// --- GetOption: type switch cases
 	ginfo := get.Info()
 	opt3BoolsStored(c, get)
